@@ -91,6 +91,8 @@ class _BinFile:
 
 
 class _TextFile(io.TextIOBase):
+    encoding = None          # a plain attribute (shadows the read-only one of TextIOBase): set per spec
+
     def __init__(self, text, pos):
         self._f = io.StringIO(text, newline="")
         self._f.seek(pos)
@@ -103,13 +105,20 @@ def _raise_oserror(*a, **k):
     raise OSError("unsupported")
 
 
-def make_file(text, seek, tell, pos, content):
-    """content: str for text files, bytes otherwise"""
+def make_file(text, seek, tell, pos, content, fenc=None):
+    """content: str for text files, bytes otherwise.  `fenc`: the text file is stored in that encoding and says so
+    (`.encoding`), as `open(path, encoding=fenc)` does: what it delivers is still its characters"""
     if seek == "ok" and tell == "ok":
+        if text and fenc:
+            f = io.TextIOWrapper(io.BytesIO(content.encode(fenc)), encoding=fenc, newline="")
+            f.read(pos)
+            return f
         f = io.StringIO(content, newline="") if text else io.BytesIO(content)
         f.seek(pos)
         return f
     f = _TextFile(content, pos) if text else _BinFile(content, pos)
+    if text and fenc:
+        f.encoding = fenc
     for name, how in (("seek", seek), ("tell", tell)):
         if how == "ok":
             setattr(f, name, getattr(f._f, name))
@@ -164,14 +173,18 @@ class _BinStream(_Stream):
 
 
 class _TextStream(_Stream, io.TextIOBase):
+    encoding = None
+
     def __init__(self, pieces, pos):
         io.TextIOBase.__init__(self)
         _Stream.__init__(self, pieces, pos, "")
 
 
-def make_stream(text, seek, tell, pos, pieces):
+def make_stream(text, seek, tell, pos, pieces, fenc=None):
     """pieces: list of str for text streams, of bytes otherwise"""
     f = _TextStream(pieces, pos) if text else _BinStream(pieces, pos)
+    if text and fenc:
+        f.encoding = fenc
     for name, how in (("seek", seek), ("tell", tell)):
         if how == "ok":
             setattr(f, name, getattr(f, "_" + name))
@@ -204,13 +217,13 @@ def build_body(spec):
     if k == "file":
         text, seek, tell, pos, content = spec[1], spec[2], spec[3], spec[4], spec[5]
         c = content if text else bytes.fromhex(content)
-        obj = make_file(text, seek, tell, pos, c)
+        obj = make_file(text, seek, tell, pos, c, spec[6] if len(spec) > 6 else None)
         pay = _utf8(c[pos:]) if text else c[pos:]
         return obj, f"F/{int(text)}/{seek}/{tell}/{pos}/" + enc(c), pay
     if k == "stream":
         text, seek, tell, pos, pieces = spec[1], spec[2], spec[3], spec[4], spec[5]
         ps = list(pieces) if text else [bytes.fromhex(p) for p in pieces]
-        obj = make_stream(text, seek, tell, pos, ps)
+        obj = make_stream(text, seek, tell, pos, ps, spec[6] if len(spec) > 6 else None)
         live = []
         for p in ps:
             if not p:
